@@ -125,6 +125,7 @@ func (c *Ctx) verifyBody() {
 		}
 		fr.Env[p] = v
 		fr.Params[p.Name()] = v
+		c.ParamVals = append(c.ParamVals, v)
 	}
 	for _, fv := range fn.FreeVars {
 		fr.Env[fv] = c.symbolic(st, fv.Type(), fv.Name())
@@ -145,6 +146,10 @@ func (c *Ctx) verifyBody() {
 	c.Obs = append(c.Obs, &Obligation{Name: fnDisplay(fn) + "/vacuity:requires-satisfiable", Kind: "canary", Fn: fnDisplay(fn),
 		PC: append([]*Term(nil), st.PC...), Claim: False(), Canary: true})
 	fr.Old = st.snapshot()
+	if sp.Pure {
+		why := c.Eng.purityViolation(fn, map[*ssa.Function]bool{})
+		c.Obs = append(c.Obs, &Obligation{Name: fnDisplay(fn) + "/pure", Kind: "pure", Fn: fnDisplay(fn), Claim: BoolT(why == ""), Src: "pure " + why})
+	}
 	nret := 0
 	c.run(st, func(s *State, ret Value) {
 		nret++
@@ -560,7 +565,7 @@ func (e *Engine) VerifyLemma(l *LemmaSpec) (res *LemmaResult) {
 	res = &LemmaResult{Name: l.Name}
 	c := NewCtx(e, nil, &FuncSpec{Arith: l.Arith, Float: l.Float})
 	c.BV = l.Arith == "bv"
-	c.FP = l.Float == "fp"
+	c.FP = l.Float == "fp" || l.Float == "fpuf"
 	c.initVals = map[*Object]Value{}
 	c.globals = map[*ssa.Global]*Object{}
 	defer func() {
@@ -616,4 +621,71 @@ func basicByName(n string) types.Type {
 		return types.Typ[types.Uint8]
 	}
 	return nil
+}
+
+// purityViolation: syntactic purity (no writes to non-local memory, no channel/goroutine/defer effects,
+// callees pure, intrinsic or builtin).  Reads of package variables are allowed (they are assumed to hold
+// their initial values, which is recorded as an assumption whenever they are read).
+func (e *Engine) purityViolation(fn *ssa.Function, seen map[*ssa.Function]bool) string {
+	if seen[fn] {
+		return ""
+	}
+	seen[fn] = true
+	local := map[ssa.Value]bool{}
+	for _, b := range fn.Blocks {
+		for _, in := range b.Instrs {
+			if a, ok := in.(*ssa.Alloc); ok {
+				local[a] = true
+			}
+		}
+	}
+	var rootLocal func(v ssa.Value) bool
+	rootLocal = func(v ssa.Value) bool {
+		switch x := v.(type) {
+		case *ssa.Alloc:
+			return true
+		case *ssa.FieldAddr:
+			return rootLocal(x.X)
+		case *ssa.IndexAddr:
+			return rootLocal(x.X)
+		}
+		return false
+	}
+	for _, b := range fn.Blocks {
+		for _, in := range b.Instrs {
+			switch x := in.(type) {
+			case *ssa.Store:
+				if !rootLocal(x.Addr) {
+					return "store to non-local memory in " + fn.String()
+				}
+			case *ssa.MapUpdate, *ssa.Send, *ssa.Go, *ssa.Defer, *ssa.Select:
+				return fmt.Sprintf("%T in %s", in, fn.String())
+			case *ssa.Call:
+				cc := x.Common()
+				if cc.IsInvoke() {
+					return "interface call in " + fn.String()
+				}
+				if _, ok := cc.Value.(*ssa.Builtin); ok {
+					continue
+				}
+				callee := cc.StaticCallee()
+				if callee == nil {
+					return "dynamic call in " + fn.String()
+				}
+				if _, ok := intrinsics[callee.String()]; ok {
+					continue
+				}
+				if sp := e.SpecFor(callee); sp != nil && (sp.Pure || sp.Trusted) {
+					continue
+				}
+				if len(callee.Blocks) == 0 {
+					return "external call " + callee.String()
+				}
+				if w := e.purityViolation(callee, seen); w != "" {
+					return w
+				}
+			}
+		}
+	}
+	return ""
 }
